@@ -134,7 +134,7 @@ pub fn run(tier: Tier) -> i32 {
     let run = Run::new("C11", tier);
     let th = tier.thorough();
     // (A) value sweep: operands x precision {absent, 0..=40} x 8 modes, no width
-    let k = alpha::coeffs(if th { 2 } else { 1 }, if th { 2000 } else { 200 }, if th { Level::Thorough } else { Level::Mid });
+    let k = alpha::coeffs(if th { 2 } else { 1 }, if th { 30000 } else { 200 }, if th { Level::Thorough } else { Level::Mid });
     let mut ops: Vec<(i128, u8)> = Vec::new();
     for &a in &k { for f in 0..=18u8 { ops.push((a, f)); } }
     // rounding frontier: coefficients at q*10^s + {0, 1, half-1, half, half+1, 10^s-1}
